@@ -8,7 +8,7 @@ from spacepackets.cfdp import ConditionCode, FaultHandlerCode
 
 from cfdppy.mib import DefaultFaultHandlerBase
 
-from .. import pdugen, wire
+from .. import pdugen, vclock, wire
 from ..oracles import trace_summary
 from ..rec import RecFaultHandler, EventLog, tid_key
 from ..world import FHC, InternalError, Plan, Runner, World, flip_payload_bit
@@ -186,6 +186,7 @@ def gen_cases(tier, seed):
                                       "mode": m, "closure": closure, "imm": imm, "size": 10, "seed": 1, "decouple": side})
                         if m == "ack" and side == "D":
                             cases.append(dict(cases[-1], md_lost=True))
+                        cases.append(dict(cases[-1], override_tlvs=True))
     rng = random.Random(1400 + seed)
     n = 5000 if tier == "quick" else 100000
     names = list(STIMULI)
@@ -195,7 +196,7 @@ def gen_cases(tier, seed):
                       "table_d": {c: rng.choice(["ignore", "cancel", "abandon"]) for c in TABLE_CONDS if rng.random() < 0.7},
                       "mode": rng.choice(["ack", "unack"]), "closure": rng.random() < 0.5, "imm": rng.random() < 0.5, "size": rng.choice([10, 10, 12, 17]),
                       "seed": seed * 1_000_003 + i, "decouple": rng.choice(["S", "D", None]), "md_lost": rng.random() < 0.2,
-                      "mods": [m for m in MODS if rng.random() < 0.08], "pacing": rng.choice([None, None, {"src_calls": 3}, {"src_calls": 6}, {"dst_calls": 3}, {"src_calls": 2, "dst_calls": 2}, {"dst_idle": 2}, {"src_idle": 2, "dst_calls": 2}])})
+                      "mods": [m for m in MODS if rng.random() < 0.08], "override_tlvs": rng.random() < 0.25, "pacing": rng.choice([None, None, {"src_calls": 3}, {"src_calls": 6}, {"dst_calls": 3}, {"src_calls": 2, "dst_calls": 2}, {"dst_idle": 2}, {"src_idle": 2, "dst_calls": 2}])})
     # two consecutive transactions on the same handlers (fault state must not leak into the next transaction's fault handling)
     n2 = 600 if tier == "quick" else 20000
     for i in range(n2):
@@ -224,6 +225,8 @@ def gen_cases(tier, seed):
             for closure in ((True,) if name == "src_check_limit" else (False,) if name == "dst_check_limit" else (False, True)):
                 cases.append({"t": "late", "late": name, "stim": [], "table_s": {cond: code} if side == "S" else {}, "table_d": {cond: code} if side == "D" else {},
                               "mode": mode, "closure": closure, "imm": False, "size": 10, "seed": 5, "decouple": side, "code": code})
+    for code, size in itertools.product(("ignore", "cancel", "abandon"), (0, 10)):
+        cases.append({"t": "eager_put", "code": code, "size": size})
     cases.append({"t": "api"})
     return cases
 
@@ -254,15 +257,86 @@ def run_api(case):
     return {"viol": viol, "obs": obs, "sig": case, "sample": None}
 
 
+def run_eager_put(case):
+    """The sender of an unacknowledged transfer with closure declares Check Limit Reached; the user, told about it inside that call, hands the
+    next put request in before it retrieves the PDUs of that call.  The configured outcome is the same as with any other call order:
+    with 'cancel' the EOF (cancel) of the first transaction still reaches the link (ahead of the next transaction's PDUs)."""
+    from .. import prep
+
+    code = case["code"]
+    cfg = {"mode": "unack", "closure": True, "size": case["size"], "seg": 4, "check_ivl_ms": 1000, "fs": "mem", "fh_src": {"CHECK_LIMIT_REACHED": code},
+           "opts": case.get("opts")}
+    viol, obs = [], {}
+    with World(cfg) as w:
+        S = w.S
+        if not prep.src_to(w, "WAITING_FOR_FINISHED"):
+            return {"viol": [{"clause": "harness-could-not-prepare-step", "step": S.h.step.name}], "obs": obs, "sig": None, "sample": None}
+        S.outbox.clear()
+        tid1 = tid_key(S.h.transaction_id)
+        mark = len(w.log.events)
+        S.autodrain = False
+        vclock.use(w.clock)
+        vclock.advance_to_next_expiry()
+        try:
+            S.sm()
+            put_ok = None
+            if S.h.state.name == "IDLE":
+                w.cfg["seq_start"] = w.cfg["seq_start"] + 1
+                put_ok = w.put()
+            S.autodrain = True
+            S.drain()
+            for _ in range(2):
+                S.sm()
+        except Exception as e:  # noqa: BLE001
+            viol.append({"clause": "internal-exception", "etype": type(e).__name__, "msg": str(e)[:150]})
+        evs = w.log.events[mark:]
+        fh = [(e["which"], e["cond"], e["tid"]) for e in evs if e["kind"] == "fh" and e["side"] == "S"]
+        tx = [e["d"] for e in evs if e["kind"] == "tx" and e["side"] == "S"]
+        fins = [e for e in evs if e["kind"] == "ind_finished" and e["side"] == "S"]
+        first = fh[0] if fh else None
+        if first is None or first[:2] != (code, "CHECK_LIMIT_REACHED") or tuple(first[2]) != tuple(tid1) or any(f[0] != code for f in fh):
+            viol.append({"clause": "callback-kind-differs-from-table", "want": (code, "CHECK_LIMIT_REACHED"), "got": fh[:4]})
+        if code == "cancel":
+            own = [d for d in tx if d["h"]["seq"] == tid1[2]]
+            if put_ok is not True:
+                viol.append({"clause": "put-request-after-cancelling-fault-refused", "returned": put_ok})
+            if not tx or tx[0].get("kind") != "EOF" or tx[0].get("cond") != "CHECK_LIMIT_REACHED" or tx[0]["h"]["seq"] != tid1[2] or len(own) != 1:
+                viol.append({"clause": "cancel-not-reported-to-peer", "cond": "CHECK_LIMIT_REACHED", "tx": [wire.short(d) for d in tx[:5]], "call_order": "put_request before get_next_packet"})
+            if [tuple(f["fin"][:1]) for f in fins if tuple(f["tid"]) == tuple(tid1)] != [("CHECK_LIMIT_REACHED",)]:
+                viol.append({"clause": "cancel-not-reported-to-user", "fins": [f["fin"] for f in fins]})
+            obs["cancels_followed_by_put_request_before_pdu_retrieval"] = 1
+        elif code == "abandon":
+            if [d for d in tx if d["h"]["seq"] == tid1[2]] or [f for f in fins if tuple(f["tid"]) == tuple(tid1)]:
+                viol.append({"clause": "abandon-not-silent", "tx": [wire.short(d) for d in tx[:5]], "fins": [f["fin"] for f in fins]})
+            obs["abandons_followed_by_put_request_before_pdu_retrieval"] = 1
+        else:
+            if tx or fins or S.h.state.name != "BUSY":
+                viol.append({"clause": "ignored-fault-did-not-let-the-transaction-continue", "tx": [wire.short(d) for d in tx[:5]], "state": S.h.state.name})
+        for v in viol:
+            v["case"] = case
+            v["trace"] = trace_summary(w, None, 30)
+    return {"viol": viol, "obs": obs, "sig": case, "sample": None}
+
+
 def run_case(case):
     if case["t"] == "api":
         return run_api(case)
+    if case["t"] == "eager_put":
+        return run_eager_put(case)
     rng = random.Random(case["seed"])
     phases = case.get("phases") or [case["stim"]]
     stim = set(phases[0])
     all_stim = [x for ph in phases for x in ph]
     cfg = {"mode": case["mode"], "closure": case["closure"], "imm_nak": case["imm"], "size": case["size"], "seg": 4, "ack_limit": 2, "nak_limit": 2, "check_limit": 2,
            "fh_src": case["table_s"], "fh_dst": case["table_d"], "disp": rng.random() < 0.5, "dest": "existing" if "reject_truncate" in all_stim else "file"}
+    obs_pre = {}
+    if case.get("override_tlvs"):
+        # the put request carries fault handler override TLVs which name another handler code than the local table for every condition:
+        # the property (and this library, which does not implement overrides) lets the local table decide on both sides
+        names = {"ignore": "IGNORE_ERROR", "cancel": "NOTICE_OF_CANCELLATION", "abandon": "ABANDON_TRANSACTION"}
+        cfg["opts"] = {"overrides": [[c, names[next(k for k in ("ignore", "abandon", "cancel") if k not in (case["table_s"].get(c, "cancel"), case["table_d"].get(c, "cancel")))]]
+                                     for c in TABLE_CONDS if c != "CANCEL_REQUEST_RECEIVED"]}
+        obs_pre["runs_with_fault_handler_override_tlvs_in_the_put_request"] = 1
     long_ivl = {"positive_ack_timer_interval_seconds": 5000.0, "nak_timer_interval_seconds": 5000.0}
     if case["decouple"] == "S":
         cfg["rc_at_dst"] = dict(long_ivl)  # the receiver's timers are slow: the sender declares first
@@ -272,7 +346,7 @@ def run_case(case):
         cfg.update({"ack_limit": 1, "nak_limit": 1, "check_limit": 1})
     if case["t"] == "random":
         cfg["scribble_pdus"], cfg["scribble_user"] = case["seed"] % 5 == 0, case["seed"] % 7 == 0
-    viol, obs = [], {}
+    viol, obs = [], dict(obs_pre)
     with World(cfg) as w:
         if not install_spy(w):
             return {"viol": [], "obs": {"spy_could_not_attach": 1}, "sig": None, "sample": None}
@@ -557,4 +631,5 @@ def finalize(ctx):
     return [], inc
 
 
-REQUIRED = {"ignored_limit_faults_followed_by_completion": 8, "declarations_judged": 100, "abandons_judged": 20, "cancels_judged": 20, "ignores_judged": 20, "set_handler_probes": 40, "set_handler_refusals": 10}
+REQUIRED = {"ignored_limit_faults_followed_by_completion": 8, "declarations_judged": 100, "abandons_judged": 20, "cancels_judged": 20, "ignores_judged": 20, "set_handler_probes": 40, "set_handler_refusals": 10,
+            "cancels_followed_by_put_request_before_pdu_retrieval": 2, "runs_with_fault_handler_override_tlvs_in_the_put_request": 100, "abandons_followed_by_put_request_before_pdu_retrieval": 2}
